@@ -27,6 +27,15 @@ CLAIMED = {
  "C12": ("table agreement (byte and string case-label sets), dominating-guard extraction on go/cfg, sibling agreement",
          "the shortcut/range machinery around the filters: the literal-prefix scan of glob.Parse stops at every byte the matcher treats as an operator; an empty prefix leaves the range unbounded; every glob-bounded iteration still matches each candidate; a COUNT answered from a counter uses the counter of the index the fallback iterates and is guarded by the absence of every filter the fallback applies; parser and matcher agree on the WHERE operators",
          "the glob matching semantics and the value ordering themselves (value-level)"),
+ "C19": ("action-set abstraction of the bookkeeping sites (AST), sibling and inverse comparison; who-may-write over resolved field objects",
+         "bookkeeping symmetry in internal/collection: both removal sites agree and are the exact inverse of the insertion site in every secondary index and counter, with the same guards and measures; Collection fields are written only by the bookkeeping functions and object fields only by constructors (indexed objects are immutable); the counter accessors return the fields they name; the COUNT shortcuts use the counter of the index they replace",
+         "arithmetic equality with a recomputation over all histories (follows from symmetry only under the library containers' correctness)"),
+ "C02": ("provenance of index rectangles and dominating-predicate extraction on go/cfg; sibling agreement of the two area parsers; repo-wide self-operand lint on resolved geojson methods",
+         "index writer and reader use the same quantiser (rtreeRect) for every rectangle; in WITHIN/INTERSECTS, sparse and plain, the user iterator runs only on the true edge of the exact predicate applied to the query object and the index is searched with the query's rectangle; index insert/delete are symmetric (R19.delta); TEST's area parser and the search parser build each area keyword with the same constructors; no geometric predicate is applied to an object and itself",
+         "that outward float32 rounding contains every float64 box (numeric), the R-tree itself and the geometric predicates (libraries)"),
+ "C20": ("dominating-guard extraction with operand provenance on go/cfg",
+         "in fenceMatchNearbys a candidate is appended only under distance(moved object, candidate) <= roam.meters and an id filter that is glob.Match under roam.pattern and equality otherwise; the reported meters is the distance between those two objects; faraway distances are recomputed against the new position; no self-operand distance",
+         "the nearby/faraway set algebra with NODWELL and the distance values themselves"),
 }
 
 NOT_APPLICABLE = {
